@@ -268,12 +268,36 @@ func c08hGenHpackAt() (string, error) {
 			body = append(body, "if "+c+" then "+rv+" else")
 		case *ast.AssignStmt:
 			// dt := d.dynTab.table (an alias of the dynamic table)
-			if x.Tok != token.DEFINE || len(x.Lhs) != 1 || len(x.Rhs) != 1 || exprKey(x.Rhs[0]) != "d.dynTab.table" {
-				return "", fmt.Errorf("at: assignment other than `dt := d.dynTab.table` at %s", fset.Position(x.Pos()))
+			if x.Tok != token.DEFINE || len(x.Lhs) != 1 || len(x.Rhs) != 1 {
+				return "", fmt.Errorf("at: assignment other than `v := e` at %s", fset.Position(x.Pos()))
 			}
-			n := exprKey(x.Lhs[0])
-			env.vars[n+".len()"] = c08hVar{"dynLen", "int"}
-			env.tabs[n+".ents"] = [2]string{".dyn", "dynLen"}
+			id, ok := x.Lhs[0].(*ast.Ident)
+			if !ok {
+				return "", fmt.Errorf("at: definition of a non-identifier at %s", fset.Position(x.Pos()))
+			}
+			n := id.Name
+			if exprKey(x.Rhs[0]) == "d.dynTab.table" {
+				env.vars[n+".len()"] = c08hVar{"dynLen", "int"}
+				env.tabs[n+".ents"] = [2]string{".dyn", "dynLen"}
+				continue
+			}
+			// a typed local: `idx := int(i)` (an untyped constant would default to int)
+			v, vty, err := env.expr(x.Rhs[0])
+			if err != nil {
+				return "", err
+			}
+			if vty == "bool" {
+				return "", fmt.Errorf("at: boolean local at %s", fset.Position(x.Pos()))
+			}
+			if vty == "" {
+				vty = "int"
+			}
+			if _, dup := env.vars[n]; dup {
+				return "", fmt.Errorf("at: %s redefined at %s", n, fset.Position(x.Pos()))
+			}
+			ln := "v_" + n
+			body = append(body, "let "+ln+" : Int := "+v+";")
+			env.vars[n] = c08hVar{ln, vty}
 		case *ast.ReturnStmt:
 			rv, err := env.ret(x)
 			if err != nil {
